@@ -42,6 +42,7 @@ def start_models():
     _starts["pheno_nocov"] = nocov
     _starts["pheno_nocov_oral"] = set_first_order_absorption(nocov)
     _starts["pred_nl"] = _pred_model()
+    _starts["pred_dates"] = _pred_model(dates=True)
     lin = load_example_model("pheno_linear")
     dfl = lin.dataset[lin.dataset["ID"] <= 3].reset_index(drop=True)
     _starts["pheno_linear"] = lin.replace(dataset=dfl)
@@ -67,17 +68,34 @@ $ESTIMATION METHOD=1 INTER
 """
 
 
-def _pred_model():
+def _pred_model(dates=False):
+    """$PRED model with an in-memory dataset; with dates=True the data have an NM-TRAN DATE column and clock times"""
     import pandas as pd
 
     from pharmpy.modeling import read_model_from_string
 
     rows = []
     for i in (1, 2, 3):
-        for t in (0.0, 1.0, 2.5, 4.0):
-            rows.append({"ID": i, "TIME": t, "X": 0.5 * i + 0.1 * t, "DV": 10.0 - t + 0.3 * i})
+        for k, t in enumerate((0.0, 1.0, 2.5, 4.0)):
+            r = {"ID": i}
+            if dates:
+                r["DATE"] = f"10-{1 + k // 2}-2020"
+                r["TIME"] = ("08:00", "10:30", "08:00", "14:15")[k]
+            else:
+                r["TIME"] = t
+            r["X"] = 0.5 * i + 0.1 * t
+            r["DV"] = 10.0 - t + 0.3 * i
+            rows.append(r)
     df = pd.DataFrame(rows)
-    m = read_model_from_string(PRED_CODE)
+    code = PRED_CODE
+    if dates:
+        code = code.replace("$INPUT ID TIME X DV", "$INPUT ID DATE TIME X DV").replace("EXP(-SLOPE*TIME)", "EXP(-SLOPE*X)")
+    m = read_model_from_string(code)
+    if dates:
+        di = m.datainfo
+        di = di.set_column(di["DATE"].replace(datatype="nmtran-date", drop=False))
+        di = di.set_column(di["TIME"].replace(datatype="nmtran-time"))
+        m = m.replace(datainfo=di)
     return m.replace(dataset=df)
 
 
